@@ -62,6 +62,9 @@ var propSpecs = map[string]PropSpec{
 	"C09": {Profile: Profile{MaxCap: 6, MaxOps: 10, BigData: true, Backends: bothBackends, Rejects: 60, DetBias: 600, FailReaders: true, Sign: 100, Foreign: 120},
 		Kinds: kinds("res", "io", "file", "shape"), Cases: [2]int{220, 4000}, Oracles: []string{"C09"},
 		Corr: "corr.C09.io_plan (the mutating calls each operation issues = the model's plan, call for call; bytes after every step)"},
+	"C15": {Profile: Profile{MaxOps: 12, Cli: true},
+		Kinds: kinds("cli", "hdr", "obj", "file", "shape"), Cases: [2]int{160, 3000}, Oracles: []string{"C15"},
+		Corr: "corr.C15.siftool (exit status, dump output and the file's full view after every siftool invocation = Model/Siftool.lean composed with the library model)"},
 	"C14": {Profile: Profile{MaxCap: 6, MaxOps: 20, BigData: true, Backends: []string{"buf"}, Rejects: 120, DetBias: 1000, FailReaders: true},
 		Kinds: kinds("res", "hdr", "obj", "file", "rl", "shape"), Cases: [2]int{350, 6000}, Backends: true,
 		Corr: "corr.C14.backends (Lean Buffer model = sif.Buffer, Lean file model = os.File, same histories)"},
@@ -188,6 +191,22 @@ func runHistory(dir string, seed uint64, spec PropSpec, shipped string) (*Case, 
 		return obs
 	}
 	obsOp := func() *Op { return &Op{Kind: "obs", Reload: spec.Profile.ObsReload, Inv: true} }
+	if spec.Profile.Cli {
+		// C15: a history of siftool invocations on one image file
+		if r.Chance(1, 8) {
+			// commands on a file that does not exist yet must fail and create nothing
+			emit(&Op{Kind: "cli", Cli: g.cliNext(imgInfo{})})
+			g.count("cli:before-new")
+		}
+		emit(&Op{Kind: "cli", Cli: &CliOp{Cmd: "new"}})
+		emit(obsOp())
+		n := 2 + r.Intn(spec.Profile.MaxOps)
+		for k := 0; k < n; k++ {
+			emit(&Op{Kind: "cli", Cli: g.cliNext(inspect(e.f))})
+			emit(obsOp())
+		}
+		return c, vs, g.stats
+	}
 	if shipped != "" {
 		lo := emit(&Op{Kind: "load", Backend: pick(r, g.p.Backends), Path: shipped})
 		g.count("shipped-image")
@@ -260,10 +279,10 @@ func protoKey(c *Case) [32]byte {
 func nontrivial(c *Case) bool {
 	mut, obs := false, false
 	for i, op := range c.Ops {
-		if isMutator(op.Kind) {
+		if isMutator(op.Kind) || (op.Kind == "cli" && (op.Cli.Cmd == "add" || op.Cli.Cmd == "del" || op.Cli.Cmd == "setprim")) {
 			// succeeded?
 			for j, o := range c.OpOf {
-				if o == i && strings.HasPrefix(c.Impl[j], "res ok") {
+				if o == i && (strings.HasPrefix(c.Impl[j], "res ok") || strings.HasPrefix(c.Impl[j], "cli ok")) {
 					mut = true
 				}
 			}
